@@ -120,7 +120,8 @@ def run(ctx):
         lm = [[ddf(d["l"][i * nl + j]) for j in range(nl)] for i in range(nl)]
         inv = [[ddf(d["inv"][i * nl + j]) for j in range(nl)] for i in range(nl)]
         checks = [("l_matrix", X.max_abs(X.sub(lm, ex["L"])) / X.max_abs(ex["L"]), Fraction(1, 10 ** 28) * len(x)),
-                  ("u", abs(ddf(d["u"]) - ex["det"]) / ex["det"], tol),
+                  # the determinant of an SPD matrix by Cholesky is accurate relative to the SCALED condition number
+                  ("u", abs(ddf(d["u"]) - ex["det"]) / ex["det"], Fraction(1, 10 ** 24) * nl * nl * min(ex["cond"], ex["cond_s"])),
                   ("inverse", X.max_abs(X.sub(inv, ex["Linv"])) / X.max_abs(ex["Linv"]), tol),
                   ("v", abs(ddf(d["v"]) - ex["V"]) / ex["V"], tol * ex["kappa"])]
         uv = [[ddf(p) for p in row] for row in d["uvec"]]
